@@ -240,6 +240,20 @@ struct Ref
       nf.index = 0;
     }
     rotated.insert(rotated.begin(), nf);
+    if (variant == 1)
+    {
+      // a sink that did not adopt a previous lifetime's files does not know their names either: renaming onto one of them
+      // replaces it (DateAndTime names collide when the same local time occurs twice - the hour repeated at the end of DST)
+      std::vector<RFile> keep;
+      for (auto const& u : untracked)
+      {
+        bool clobbered = false;
+        for (auto const& f : rotated)
+          if (f.date == u.date && f.index == u.index) clobbered = true;
+        if (!clobbered) keep.push_back(u);
+      }
+      untracked.swap(keep);
+    }
     if (c->backups >= 0 && static_cast<long>(rotated.size()) > c->backups) rotated.pop_back();
     active_ids.clear();
     active_bytes = 0;
@@ -542,6 +556,12 @@ static Outcome run_history(Cfg const& c, std::vector<Op> const& h, bool count)
       }
     std::string why, why1;
     bool ok0 = compare(ref[0], files, why);
+    if (getenv("VF_ROT_DEBUG"))
+    {
+      fprintf(stderr, "step %zu (%c dt=%ld now=%ld) dir:", i, o.kind, o.dt, static_cast<long>(now));
+      for (auto const& f : files) fprintf(stderr, " %s[%s]", f.name.c_str(), ids_str(f.ids).c_str());
+      fprintf(stderr, "  ref0 %s %s\n", ok0 ? "agrees" : "differs:", why.c_str());
+    }
     if (v1_alive && !compare(ref[1], files, why1)) v1_alive = false;
     if (v2_alive && !compare(ref[2], files, why1)) v2_alive = false;
     // state key: directory + private fields of the sink
@@ -626,6 +646,9 @@ int main(int argc, char** argv)
       .s("freq", c.freq)
       .b("restart_in_history", restart)
       .b("append_restart_in_history", a_restart)
+      // (the first open of an append-mode configuration over a directory that already holds the planted files is the same
+      // situation as an append-mode restart)
+      .b("opened_in_append_mode_over_existing_files", a_restart || (c.mode == 'a' && c.plant))
       .b("matches_non_adopting_reference", o.matches_variant1 && a_restart && c.scheme != "index")
       .b("matches_24h_stepping_daily_reference", o.matches_variant2 && c.freq == "daily" && !c.gmt)
       .b("planted_lookalike_files", c.plant)
